@@ -105,7 +105,7 @@ def main():
             ev["checks"] = checks
             ev["caught_by_target_check"] = checks[pid]["exit"] == 1
             ev["caught_by"] = sorted(p for p, c in checks.items() if c["exit"] == 1)
-            if not ev["caught_by_target_check"]:
+            if not ev["caught_by_target_check"] and meta.get("expected_caught", True):
                 ok_all = False
         meta["evaluation"] = ev
         json.dump(meta, open(meta_p, "w"), indent=1)
